@@ -925,6 +925,8 @@ def _case(s, solver, pre_eig, incrb, rfdo, extra=None):
          "kind": s["kind"]}
     if s["fam"] == "block":
         c["labels"] = s["labels"]
+    if "corpus_seed" in s:
+        c["corpus_seed"] = s["corpus_seed"]       # generated with this seed, not VERIF_SEED
     if extra:
         c.update(extra)
     return c
@@ -996,14 +998,25 @@ def _partition_check(sh, np, obj, s, case, tags):
                    tags)
 
 
-def run_block_case(sh, np, ode, i, tier):
-    s = gen_block(sh.seed, i)
-    r = core.rng(sh.seed, "C02", "block-ff", i)
+# generator inputs (seed, index) of block systems that exposed a defect in the past; they
+# are replayed in every run of every tier, whatever VERIF_SEED is (regression corpus):
+#   (2, 7366)  coupled real system, cond(eigenvectors) = 2.8e3, solver made WITH a time
+#              step: fsolve raised 'factor of 2.0 seems to be missing' (repaired)
+CORPUS = [(2, 7366)]
+
+
+def run_block_case(sh, np, ode, i, tier, gseed=None):
+    gs = sh.seed if gseed is None else gseed
+    s = gen_block(gs, i)
+    if gseed is not None:
+        s["corpus_seed"] = gseed
+        sh.count("cell:corpus-case")
+    r = core.rng(gs, "C02", "block-ff", i)
     freq, F, fkind = gen_freq_force(np, r, s)
     has0 = bool(np.any(freq == 0))
     base_tags = _tags(np, s, "su", False, "dva", False, freq)
     case0 = _case(s, "su", False, "dva", False)
-    ref = Ref(s, F, freq, (sh.seed, "C02", "pert", i))
+    ref = Ref(s, F, freq, (gs, "C02", "pert", i))
     if s["nrb"] and ref.rb_rule_gap > 1e-6:
         raise RuntimeError(f"generator outside domain: rb rule gap {ref.rb_rule_gap}")
     su = _build(sh, ode, "su", s, case0, base_tags)
@@ -1441,6 +1454,9 @@ def run_shard(sh, params):
     # contiguous chunks: the generators stratify on i % 4, (i // 4) % 8, ... and a
     # strided split would confine a shard to one residue class
     nb, nph = NBLOCK[tier] // ns, NPHYS[tier] // ns
+    if sl == 0:
+        for gseed, gi in CORPUS:
+            run_block_case(sh, np, ode, gi, tier, gseed=gseed)
     for i in range(sl * nb, (sl + 1) * nb):
         s, su, fd = run_block_case(sh, np, ode, i, tier)
         if i % 3 == 0:
